@@ -6,9 +6,10 @@ ID = 'C10'
 RULE = ('one record per KDF call: HKDF-Extract/Expand over SHA-1/256/512/SHA3-256 with L in {0,1,HL-1,HL,HL+1,2HL+1,255HL-1,255HL} must equal RFC 5869 and '
         'L in {255HL+1, 256HL, 256HL+1, 300HL} must be refused (PANIC); PBKDF2 over HMAC-SHA1/256/512 with c in {1,2,3,4,5,10,100,(4096)} and dkLen '
         'across block boundaries; scrypt over the grid log2N 1..10 x r 1..8 x p 1..4 with dkLen 1..130 (quick: Latin-square quarter); '
-        'distinct = (function, digest/params, length class)')
+        'HKDF is also handed digest objects that already absorbed data or were finalised; every output buffer is pre-filled with a non-zero pattern by the driver; distinct = (function, digest/params, length class)')
 ASSUMPTIONS = ['hashlib.pbkdf2_hmac / hashlib.scrypt (OpenSSL) and own RFC transcriptions pinned by RFC 5869/6070/7914 vectors']
 FLOORS = {'evaluations': 400, 'distinct': 300}
+THOROUGH_ROUNDS = 40   # thorough tier: generator passes with derived seeds (runner.gen_rounds)
 
 
 def gen(tier, seed):
@@ -22,6 +23,10 @@ def gen(tier, seed):
         for L in (0, 1, hl - 1, hl, hl + 1, 2 * hl, 2 * hl + 1, 7 * hl + 3, 255 * hl - 1, 255 * hl, 255 * hl + 1, 256 * hl - 1, 256 * hl, 256 * hl + 1, 300 * hl):
             for il in (0, 10) + ((77,) if thorough else ()):
                 yield 'hkdf_expand %s %s %s %d' % (d, rng.data(rng.choice([hl, hl + 5, 2 * hl])), rng.data(il), L)
+        # the digest object handed in is not fresh: it has absorbed data, or has even been finalised (HKDF starts its own hash)
+        for soil in ('soil/%s' % rng.data(rng.choice([1, 20, 64, 200])), 'soil/%s/fin' % rng.data(rng.choice([0, 3, 130]))):
+            yield 'hkdf_extract %s %s %s - %s' % (d, rng.data(rng.choice([0, 13, hl])), rng.data(22), soil)
+            yield 'hkdf_expand %s %s %s %d %s' % (d, rng.data(hl), rng.data(10), rng.choice([1, hl, 2 * hl + 1]), soil)
     for d in ('sha1', 'sha256', 'sha512') + (('sha3_256', 'ripemd160', 'blake2b:64') if thorough else ()):
         hl = o.digest_fn(d)[2]
         for c in (1, 2, 3, 4, 5, 10, 100) + ((4096,) if thorough else ()):
@@ -78,10 +83,11 @@ def check(line, toks):
 
 def classify(line):
     f = line.split()
+    soiled = ('soiled-fin' if f[-1].endswith('/fin') else 'soiled') if f[-1].startswith('soil/') else 'fresh'
     if f[0] == 'hkdf_extract':
-        return (f[0], f[1], spec_len(f[2]), spec_len(f[3]))
+        return (f[0], f[1], spec_len(f[2]), spec_len(f[3]), soiled)
     if f[0] == 'hkdf_expand':
-        return (f[0], f[1], spec_len(f[3]), f[4])
+        return (f[0], f[1], spec_len(f[3]), f[4], soiled)
     if f[0] == 'pbkdf2':
         return (f[0], f[1], f[4], f[5])
     return tuple(f[0:1] + f[3:])
@@ -92,7 +98,11 @@ def coverage(line, toks):
     if f[0] == 'scrypt':
         return ['scrypt:r=%s' % f[4], 'scrypt:p=%s' % f[5], 'scrypt:logn=%s' % f[3]]
     if f[0] == 'hkdf_expand':
-        return ['hkdf_expand:%s' % ('refused' if toks == ['PANIC'] else 'ok')]
+        return ['hkdf_expand:%s' % ('refused' if toks == ['PANIC'] else 'ok')] + (['hkdf:digest-object-not-fresh'] if f[-1].startswith('soil/') else [])
+    if f[0] == 'hkdf_extract' and f[-1].startswith('soil/'):
+        return [f[0], 'hkdf:digest-object-not-fresh']
+    if f[0] == 'pbkdf2' or f[0] == 'scrypt':
+        return [f[0], 'kdf:output-buffer-prefilled']
     return [f[0]]
 
 
